@@ -217,6 +217,18 @@ def runClientSeq (parse : String → Option (Int × Int × Int)) :
       | none => tr
     (r.1, r.2.1, tr') :: runClientSeq parse tr' rest
 
+/-- Several connections (streams + tracked client each) alive in one process; a call names its
+connection.  `trs` is the state of every connection's tracked client. -/
+def runClients (parse : String → Option (Int × Int × Int)) :
+    (Nat → Tracked) → List (Nat × ClientStep) → List (Nat × Outcome × List Ev × Tracked)
+  | _, [] => []
+  | trs, (k, sup, pref, ans) :: rest =>
+    let r := trackedInit parse sup pref ans
+    let tr' : Tracked := match r.2.2 with
+      | some x => some x
+      | none => trs k
+    (k, r.1, r.2.1, tr') :: runClients parse (fun j => if j = k then tr' else trs j) rest
+
 /-! ## Server -/
 
 /-- The `protocolVersion` member of the initialize request's params. -/
@@ -304,6 +316,17 @@ def runInitsG (sup : List String) :
     let sid := st.length
     let tail := runInitsG sup st' rest
     ((rep.answered, st'[sid]?) :: tail.1, tail.2)
+
+/-- Several handlers alive in one process; a request names its handler.  `stores` is every
+handler's session store. -/
+def runHandlers (sup : List String) :
+    (Nat → List String) → List (Nat × InitStepG) → List (Nat × String × Option String)
+  | _, [] => []
+  | stores, (h, r, _carry, choice) :: rest =>
+    let rep := handleInitializeG sup choice r
+    let st' := stores h ++ [rep.recorded]
+    (h, rep.answered, st'[(stores h).length]?) ::
+      runHandlers sup (fun k => if k = h then st' else stores k) rest
 
 def handshakeG (clientSup : List String) (pref : Option String) (serverSup : List String)
     (choice : String) : Outcome × List Ev × Option String :=
